@@ -21,6 +21,19 @@ pub enum Base {
 pub struct Round {
     program: Program,
     by_drop: bool,
+    /// raw copies from a fixed two-entry source archive: (pick, rename)
+    #[serde(default)]
+    raw: Vec<(u16, Option<String>)>,
+    /// raw copies come before (true) or after (false) the program's own entries
+    #[serde(default)]
+    raw_first: bool,
+}
+
+const RAW_SRC: [(&str, &[u8], u16); 2] = [("src/deflated.txt", b"raw copy source: deflated deflated deflated deflated deflated", 8), ("src/stored.bin", b"\x00\x01\x02 stored raw copy source", 0)];
+
+fn raw_source() -> Vec<u8> {
+    let ops = RAW_SRC.iter().map(|(n, d, m)| Op::File { name: n.to_string(), opts: gen::Opts::plain(if *m == 8 { gen::Method::Deflated } else { gen::Method::Stored }), chunks: vec![crate::refzip::Content::Bytes(d.to_vec())] }).collect();
+    gen::run_program(&Program { ops }, false).expect("raw source")
 }
 #[derive(Clone, Debug, Serialize, Deserialize, Hash)]
 pub struct History {
@@ -122,8 +135,34 @@ fn check(h: &History, info: &mut Info) -> Result<(), String> {
         {
             let w = ZipWriter::new_append(&mut cur).map_err(|e| format!("round {ri}: new_append refused a valid archive: {e}"))?;
             let mut w = std::mem::ManuallyDrop::new(w);
+            let src = raw_source();
+            let mut sza = zip::ZipArchive::new(Cursor::new(&src[..])).map_err(|e| format!("harness: {e}"))?;
+            let mut raw_model: Vec<MEntry> = Vec::new();
+            let mut do_raw = |w: &mut ZipWriter<&mut Cursor<Vec<u8>>>, raw_model: &mut Vec<MEntry>| -> Result<(), String> {
+                for (pick, rename) in &r.raw {
+                    let k = (*pick as usize * RAW_SRC.len()) >> 16;
+                    let f = sza.by_index_raw(k).map_err(|e| format!("harness: {e}"))?;
+                    let name = rename.clone().unwrap_or_else(|| RAW_SRC[k].0.to_string());
+                    match rename {
+                        Some(n) => w.raw_copy_file_rename(f, n.clone()).map_err(|e| format!("round {ri}: raw_copy_file_rename: {e}"))?,
+                        None => w.raw_copy_file(f).map_err(|e| format!("round {ri}: raw_copy_file: {e}"))?,
+                    }
+                    raw_model.push(MEntry { name, content: Some(RAW_SRC[k].1.to_vec()), method: RAW_SRC[k].2, dos: gen::Opts::plain(gen::Method::Stored).dos(), mode: Some(0o100644), password: None });
+                }
+                Ok(())
+            };
+            if r.raw_first {
+                do_raw(&mut w, &mut raw_model)?;
+                model.extend(raw_model.drain(..));
+            }
             for op in &r.program.ops {
                 gen::apply(&mut w, op).map_err(|e| format!("round {ri}: {e}"))?;
+            }
+            let (m2, _) = model_of_program(&r.program);
+            model.extend(m2);
+            if !r.raw_first {
+                do_raw(&mut w, &mut raw_model)?;
+                model.extend(raw_model.drain(..));
             }
             if r.by_drop {
                 unsafe { std::mem::ManuallyDrop::drop(&mut w) };
@@ -133,19 +172,18 @@ fn check(h: &History, info: &mut Info) -> Result<(), String> {
         }
         let end_pos = cur.position() as usize;
         bytes = cur.into_inner();
-        let (m2, c2) = model_of_program(&r.program);
-        model.extend(m2);
+        let (_, c2) = model_of_program(&r.program);
         if let Some(c2) = c2 {
             comment = c2;
         }
-        let what = format!("after append round {ri} ({} new entries, by_drop={})", gen::entry_count(&r.program), r.by_drop);
+        let what = format!("after append round {ri} ({} new entries, {} raw copies {}, by_drop={})", gen::entry_count(&r.program), r.raw.len(), if r.raw_first { "first" } else { "last" }, r.by_drop);
         // The writer cannot truncate its sink: when the rewritten archive is shorter than the old
         // one (dropped file comments / ZIP64 end records, shorter archive comment) the old end
         // record stays behind it. The archive proper is bytes[..end_pos]; it must be right in any
         // case. What a reader makes of the stale tail is judged separately (known finding).
         let stale_tail = end_pos < before.len() && end_pos <= bytes.len();
         let proper = if stale_tail { &bytes[..end_pos] } else { &bytes[..] };
-        let new_count = m_len(&r.program);
+        let new_count = m_len(&r.program) + r.raw.len();
         verify_view(proper, &model, &comment, new_count, &what)?;
         if stale_tail {
             if let Err(e) = verify_view(&bytes, &model, &comment, new_count, &what) {
@@ -269,7 +307,7 @@ fn check_big(c: &Big) -> Result<(), String> {
 }
 
 pub fn run(ctx: &mut Ctx) {
-    ctx.rule("history = base x 0..R rounds of {new_append; 0..3 new entries of any kind/method incl. extra data, aligned, ZipCrypto; optional comment change; finish or drop}. Bases: archives from this writer (C01 programs) and from the independent builder (data descriptors, forced ZIP64 fields and end records, junk prefix, CP437 names, DOS attributes, file comments, unsupported methods, shuffled central order, gaps) and from CPython zipfile (driver cpython_bases: seekable/unseekable sinks i.e. data descriptors, force_zip64, prepended data, cp437/UTF-8 names, DOS/Unix systems). After every round the crate reader and the independent (lenient) parser must see model = previous entries (name, content, method, timestamp, unix mode) followed by the new ones, and the archive comment unless replaced. big_bases: crate-written bases of 65534/65535 (thorough: 65533..70000) entries, bare or behind 777 prepended bytes (offsets relative to the archive start), x append rounds {[0],[1],[2,0],[1,1,1]} crossing the 16-bit entry-count limit. Non-trivial = foreign base, or >=2 rounds with at least one non-empty round.");
+    ctx.rule("history = base x 0..R rounds of {new_append; 0..3 new entries of any kind/method incl. extra data, aligned, ZipCrypto; optional raw copies from another archive before or after them; optional comment change; finish or drop}. Bases: archives from this writer (C01 programs) and from the independent builder (data descriptors, forced ZIP64 fields and end records, junk prefix, CP437 names, DOS attributes, file comments, unsupported methods, shuffled central order, gaps) and from CPython zipfile (driver cpython_bases: seekable/unseekable sinks i.e. data descriptors, force_zip64, prepended data, cp437/UTF-8 names, DOS/Unix systems). After every round the crate reader and the independent (lenient) parser must see model = previous entries (name, content, method, timestamp, unix mode) followed by the new ones, and the archive comment unless replaced. big_bases: crate-written bases of 65534/65535 (thorough: 65533..70000) entries, bare or behind 777 prepended bytes (offsets relative to the archive start), x append rounds {[0],[1],[2,0],[1,1,1]} crossing the 16-bit entry-count limit. Non-trivial = foreign base, or >=2 rounds with at least one non-empty round.");
     ctx.assume("file comments and extra fields of existing entries are not part of the claim (the property lists order, names, contents, methods, timestamps, modes, archive comment)");
     // entry counts around 65535/65536, with and without prepended data
     let bases: Vec<u32> = ctx.q(vec![65534, 65535], vec![65533, 65534, 65535, 65536, 70000]);
@@ -299,7 +337,7 @@ pub fn run(ctx: &mut Ctx) {
         "cpython_bases",
         npy,
         &|| {
-            let round = (gen::program(3, 5000, true, false), prop_oneof![3 => Just(false), 1 => Just(true)]).prop_map(|(program, by_drop)| Round { program: gen::tame(program), by_drop });
+            let round = (gen::program(3, 5000, true, false), prop_oneof![3 => Just(false), 1 => Just(true)]).prop_map(|(program, by_drop)| Round { program: gen::tame(program), by_drop, raw: vec![], raw_first: false });
             (super::c03::py_spec(), proptest::collection::vec(round, 1..=3)).prop_map(|(s, rounds)| History { base: Base::CPython(s), rounds }).boxed()
         },
         &|h: &History, info: &mut Info| {
@@ -323,7 +361,12 @@ pub fn run(ctx: &mut Ctx) {
         "histories",
         n,
         &|| {
-            let round = (gen::program(3, 20000, true, true), prop_oneof![3 => Just(false), 1 => Just(true)]).prop_map(|(program, by_drop)| Round { program: gen::tame(program), by_drop });
+            let round = (gen::program(3, 20000, true, true), prop_oneof![3 => Just(false), 1 => Just(true)]).prop_map(|(program, by_drop)| Round { program: gen::tame(program), by_drop, raw: vec![], raw_first: false });
+            let round = (round, prop_oneof![3 => Just(vec![]), 1 => proptest::collection::vec((any::<u16>(), prop_oneof![2 => Just(None), 1 => gen::name().prop_map(Some)]), 1..3)], any::<bool>()).prop_map(|(mut r, raw, raw_first)| {
+                r.raw = raw;
+                r.raw_first = raw_first;
+                r
+            });
             (prop_oneof![1 => gen::program(6, 20000, true, true).prop_map(|p| Base::Written(gen::tame(p))), 1 => genf::archive(6, 5000, true).prop_map(Base::Foreign)], proptest::collection::vec(round, 0..=rmax)).prop_map(|(base, rounds)| History { base, rounds }).boxed()
         },
         &|h: &History, info: &mut Info| {
@@ -341,6 +384,7 @@ pub fn run(ctx: &mut Ctx) {
             info.label_if(h.rounds.iter().any(|r| gen::entry_count(&r.program) == 0), "empty-round");
             info.label_if(h.rounds.iter().any(|r| r.program.ops.iter().any(|o| matches!(o, Op::Comment(_)))), "comment-change");
             info.label_if(h.rounds.len() >= 3, ">=3 rounds");
+            info.label_if(h.rounds.iter().any(|r| !r.raw.is_empty()), "raw-copies-in-round");
             match catch(|| check(h, info)) {
                 Ok(Ok(())) => Verdict::Pass,
                 Ok(Err(m)) if m.starts_with("KNOWN:append-leaves-stale-tail") => Verdict::Known("append-leaves-stale-tail", m),
